@@ -87,6 +87,15 @@ claim("C20", "fault_enumeration", "SEQ+ENV", "exhaustive enumeration of cross-mo
       "allocator, descriptor, shared-mapping, IPC-name, pthread-object and dlopen ledgers must return to their initial state and no descriptor may be closed twice.",
       "trusted: /proc/self/fd, link-time interposition of the system calls, gcc ASan.", "5 C20")
 
+KSIM_NOTE = ("trusted: KSIM (engine/ksim.c), an in-memory model of the Linux socket calls psocket.c uses, bound to the real kernel by the conformance replay in the C10 check (every explored sequential trace is "
+             "re-run on real loopback sockets and must give identical per-step outcomes); our scheduler runtime. Payload bytes and the real TCP stack's segmentation are not explored.")
+claim("C09", "model_checking", "SCHED+ENV over KSIM", "preemption- and deviation-bounded exhaustive exploration of client/server threads over an in-memory socket layer with tiny buffers",
+      "Client and server threads with their own PSocket over KSIM (8-byte buffers, 2-datagram queues): all interleavings with <= 2 preemptions x all patterns of <= 1 (2) injected EINTR / spurious EAGAIN / "
+      "extra-short transfers; byte-stream equality, datagram identity and sender address, no internal would-block/interrupted condition surfaced in blocking mode, time-outs not before T, no SIGPIPE.", KSIM_NOTE, "5 C09")
+claim("C10", "model_checking", "SEQ over KSIM + conformance", "BFS over API call sequences on a socket model with virtual clock vs a reference state machine; all traces replayed on the real kernel",
+      "Call sequences up to depth 8 (12) / 9 (14) on stream and datagram sockets of both families with a scripted peer, deduplicated on the reference state; getters, wait rules on the virtual clock, closed-state "
+      "rules (not-available, no system call on a descriptor, idempotent close) and close-on-exec are checked after every call; every explored trace is replayed on real loopback sockets (traces_validated_against_impl).", KSIM_NOTE, "5 C10")
+
 PENDING_REASON = "engine for this property is not finished in the committed tree yet (see DESIGN.md section 9); not served by a weaker technique meanwhile"
 
 
@@ -114,6 +123,7 @@ def main():
                         source_commits=[], add_only=True),
              engines=[dict(name="SCHED", path="engine/mcrt_*.c + harness/sched_*.c", serves_properties=sorted(p for p in CLAIMED if "SCHED" in CLAIMED[p]["engine"]),
                            kind_free_text="stateless preemption-bounded DFS over real threads under a controlled scheduler (fork per execution), POSIX threads model, vector-clock happens-before monitor fed by compiler instrumentation, state-hash pruning"),
+                      dict(name="KSIM", path="engine/ksim.c + engine/mcrt_ksim.c", serves_properties=["C09", "C10"], kind_free_text="in-memory POSIX socket layer with tiny buffers, virtual clock and deviation points; conformance-replayed on the real kernel"),
                       dict(name="SEQ", path="engine/ + harness/", serves_properties=sorted(p for p in CLAIMED if "SEQ" in CLAIMED[p]["engine"]),
                            kind_free_text="explicit-state / bounded-exhaustive exploration of sequential APIs on the real objects against reference models")],
              checks=checks,
